@@ -8,3 +8,50 @@ Theorem C16_exit_is_success : forall flits lookup budget inc pre post c w c1 w1,
   exists c2, write_tpl flits lookup budget inc (pre ++ NExit :: post) c w = Out c2 w1 None.
 Proof. exact exit_is_success. Qed.
 Print Assumptions C16_exit_is_success.
+
+(* ---- refinement of the reference semantics: include, exit, whole renders
+        (Proofs/RefineNodes.v, RefineRender.v) ---- *)
+From DT Require Import Model.Mods Spec.Ast Spec.RefEval Spec.Compile Proofs.FlatProofs Proofs.RefineBase
+  Proofs.RefineList Proofs.RefineNodes Proofs.RefineMain Proofs.RefineRender.
+
+(* include: the first registered name, rendered in place on the including template's variables
+   and escape region; template-not-found otherwise *)
+Theorem C16_include_refines :
+  forall flits lookup budget inc rlookup rinc L names,
+    lookup_ok lookup rlookup -> inc_ok inc rlookup rinc L ->
+    node_ref flits lookup budget inc rlookup rinc L (NInclude names) (AInclude names).
+Proof. exact include_ref. Qed.
+Print Assumptions C16_include_refines.
+
+Theorem C16_exit_refines :
+  forall flits lookup budget inc rlookup rinc L,
+    node_ref flits lookup budget inc rlookup rinc L NExit AExit.
+Proof. exact exit_ref. Qed.
+Print Assumptions C16_exit_refines.
+
+(* the include hypothesis holds for the model's own renderer against the reference one, at every
+   include depth: included templates are evaluated in place *)
+Theorem C16_include_is_inlining :
+  forall flits lookup budget rlookup,
+    lookup_ok lookup rlookup ->
+    (forall names t, rlookup names = Some t -> forallb (wf_supported true) t = true) ->
+    forall depth L,
+      inc_ok (render_inc flits lookup budget depth) rlookup (ref_inc flits rlookup budget depth) L.
+Proof. exact inc_ok_depth. Qed.
+Print Assumptions C16_include_is_inlining.
+
+(* Write(w, key, ctx): the whole render agrees with the reference render; exit (also inside an
+   included template) ends the template it stands in, successfully *)
+Theorem C16_render_refines :
+  forall flits lookup budget rlookup,
+    lookup_ok lookup rlookup ->
+    (forall names t, rlookup names = Some t -> forallb (wf_supported true) t = true) ->
+    forall depth items c w,
+      forallb (wf_supported true) items = true -> Inv [] c -> w_fail w = None ->
+      forall o e1 s,
+        ref_items flits rlookup budget (ref_inc flits rlookup budget depth) items (abs c) = (o, e1, s) -> sig_dom s ->
+      exists c' w',
+        render flits lookup budget depth (compile_tpl items) c w = Out c' w' (ref_err s) /\
+        wr_bytes w' = wr_bytes w ++ o /\ w_fail w' = None /\ post [] s c' e1.
+Proof. exact render_refines. Qed.
+Print Assumptions C16_render_refines.
